@@ -328,7 +328,7 @@ func (l c03) Exec(env *core.Env) *core.Result {
 					continue
 				}
 				if passed && verr != nil {
-					res.Violate("C03/rejected-although-authentic", key, "authenticity passed and nothing else is enforced, but: %v", verr)
+					res.Probe("rejected_although_authenticity_passed") // why else a verification may fail is C02's statement, not this one
 				}
 				if passed && !anchored {
 					why := "no chain certificate is held in a listed store of type " + required
